@@ -299,6 +299,12 @@ def run(cx):
             ob.require(kind is not None, f"loop/arm{idx}/future", f"select arm {idx} polls {fut}", start.path)
             if kind is None:
                 continue
+            # an arm body that continues the loop does not suspend: while it awaits something a peer controls (a drain of a
+            # stream the peer never finishes) the other arms - the peer's well-formed requests - are not polled
+            body_ = start.reachable_from(tgt, avoid={site["head"]})
+            stall = sorted(y_ for y_ in body_ if start.term(y_)["k"] == "yield" and site["head"] in start.reachable_from(y_))
+            ob.require(not stall, f"loop/arm{idx}/suspends", f"select arm {idx} ({fut.split('::')[-2] if '::' in fut else fut}) awaits inside its body before the loop continues (bb{stall[0] if stall else ''})",
+                       start.path, start.loc(stall[0]) if stall else None)
             ws = {fmt_word(w) for w in arm_words(start, site, idx, call_sym, extra)}
             if kind == "ignore":
                 exp = {"[Ok] <stop>", "[Err] remove shutdown <return>"}
